@@ -104,6 +104,10 @@ func (pg *progGen) ty(from int, depth int, underRef bool, declIdx int) string {
 		key := g.Pick(pgKeyBuiltins)
 		if ks := pg.visible(from, func(n pgNamed) bool { return n.cmp && n.byVal }); len(ks) > 0 && g.Chance(0.3) {
 			key = pg.ref(from, ks[g.R.Intn(len(ks))])
+		} else if g.Chance(0.2) {
+			// an unnamed composite key that occurs nowhere else: a pointer, an array, a struct, a channel
+			pg.classes["composite-map-key"] = true
+			key = g.Pick([]string{"*int16", "[2]uint16", "struct{ K int16; L string }", "chan uint16", "*struct{ K uint16 }", "[3]*int16"})
 		}
 		return "map[" + key + "]" + pg.ty(from, depth-1, true, declIdx)
 	case 4:
